@@ -161,9 +161,10 @@ def run(ck: Check, prog: Program) -> None:
                 raise AnalysisError(f'{brel.qualname}: unrecognised guard `{norm(g.src.ast)}` around the id matching')
     # ids of the wrong JSON type are rejected when the response is deserialised
     from . import c06 as _c06
-    rfj = prog.func(V20 + '.Response.from_json')
+    mprog = _c06.model_program(prog)
+    rfj = mprog.func(V20 + '.Response.from_json')
     ck.functions.add(rfj.qualname)
-    _c06._field_guards(ck, prog, rfj)
+    _c06._field_guards(ck, mprog, rfj)
     # duplicates: strict ctor default
     binit = prog.func(V20 + '.BatchResponse.__init__')
     dd = binit.param_default('strict')
